@@ -172,6 +172,31 @@ def run(ctx):
             else:
                 r3.violation(key, "published flag written outside set_published", s.loc)
 
+    # files are marked published only once the instance listing them is queued: no failing exit of publish() between
+    # "marked" and "queued" (an Err return after marking would release objects that no FDT announces)
+    hp = prog.fn(FDT + "::publish")
+    hpf = Flow(hp.body)
+    hps = Slicer(hp.body)
+    qpush = [s for s in call_sites(hp, lambda p, c: p.endswith("::push_back")) if "fdt_transfer_queue" in show(s.expr[2][0])]
+    marks = []
+    for s in call_sites(hp, lambda p, c: re.search(r"Iterator::for_each$", p) is not None):
+        for z in hps.sources(s.expr):
+            if z.startswith("closure:"):
+                cf = prog.funcs.get(z[len("closure:"):])
+                if cf and any(True for _ in call_sites(cf, lambda p, cc: p == FD + "::set_published")):
+                    marks.append(s)
+    # (a direct set_published() on the FDT's own FileDesc - TOI 0 - is not a listed object)
+    marks += [s for s in call_sites(hp, lambda p, c: p == FD + "::set_published") if any(z.startswith("var:self.files") for z in hps.sources(s.expr[2][0]))]
+    if not marks or not qpush:
+        raise model.AnchorMissing("Fdt::publish: marking (%d) / queueing (%d) sites not found" % (len(marks), len(qpush)))
+    for s in marks:
+        key = "publish: files marked published only after the instance is queued"
+        if all(q.bb != s.bb and hpf.dominates(q.bb, s.bb) for q in qpush):
+            r3.ok(key, "set_published dominated by fdt_transfer_queue.push_back", s.loc)
+        else:
+            r3.violation(key, "files are marked published before the FDT instance listing them is queued: if publish() fails in "
+                              "between, FullFDT objects become eligible without ever being announced", s.loc)
+
     # ---- R4 ----------------------------------------------------------------------------
     r4 = ctx.rule("C11.R4", "in get_next_file_transfer, under publish_mode == ObjectsBeingTransferred, transfer_started(..) is "
                             "always followed by Fdt::publish(..) before returning; publish queues an FDT instance", "PAIR under assumption")
